@@ -31,3 +31,30 @@ Proof. vm_compute. reflexivity. Qed.
 Example visitor_sin :
   series_top (EF1 TC_Sin (ESym name_x)) 7 = Ok [(1%Z, 1); (3%Z, -1 # 6); (5%Z, 1 # 120)].
 Proof. vm_compute. reflexivity. Qed.
+
+(* roots: 4 + x/3 - 5x^3/7 has the perfect-square constant term 4 *)
+Definition s4 : poly := [(0%Z, 4 # 1); (1%Z, 1 # 3); (3%Z, -5 # 7)].
+Example guard_root : wfb s4 = true /\ const0 s4 = false /\ qroot (find_cf s4 0) 2 = Ok (2 # 1).
+Proof. vm_compute. repeat split; reflexivity. Qed.
+Example run_root : exists r, series_nthroot s4 2 9 = Ok r /\ length r = 9%nat /\ find_cf r 0 == 2.
+Proof. eexists. vm_compute. repeat split; reflexivity. Qed.
+Example run_root_roundtrip :
+  bind (series_nthroot s4 2 9) (fun r => ppow r 2 9) = Ok s4.
+Proof. vm_compute. reflexivity. Qed.
+Example guard_prec2 : prec_ok2 9 = true.
+Proof. reflexivity. Qed.
+Example run_tan : exists r, series_tan s0 8 = Ok r /\ length r = 7%nat.
+Proof. eexists. vm_compute. split; reflexivity. Qed.
+Example run_tanh : exists r, series_tanh s0 8 = Ok r /\ length r = 7%nat.
+Proof. eexists. vm_compute. split; reflexivity. Qed.
+Example run_asin : exists r, series_asin s0 8 = Ok r /\ length r = 10%nat.
+Proof. eexists. vm_compute. split; reflexivity. Qed.
+Example run_lambertw : exists r, series_lambertw s0 8 = Ok r /\ length r = 7%nat.
+Proof. eexists. vm_compute. split; reflexivity. Qed.
+Example run_sinh_cosh :
+  exists rs rc, series_sinh s0 8 = Ok rs /\ series_cosh s0 8 = Ok rc /\ length rs = 7%nat /\ length rc = 7%nat.
+Proof. eexists. eexists. vm_compute. repeat split; reflexivity. Qed.
+(* the chained visitor instance of P_compose.v is not vacuous *)
+Example run_exp_sin :
+  exists r, series_top (EPow (EConst name_E) (EF1 TC_Sin (ESym name_x))) 6 = Ok r /\ length r = 5%nat.
+Proof. eexists. vm_compute. split; reflexivity. Qed.
